@@ -109,6 +109,8 @@ type c17Waiter struct {
 	http  bool
 	code  int
 	retry string
+	// the server's wait function panicked instead of returning an outcome
+	panicked string
 }
 
 // c17HTTPError is the outcome of an HTTP submission that was not answered 200.
@@ -355,6 +357,14 @@ func c17Run(t *testing.T, plan c17Plan, dir string, st map[string]int, desc *[]s
 				w = &c17Waiter{id: len(waiters), entry: e, low: low, src: src, afterStop: stopSeen}
 				waiters = append(waiters, w)
 				go func() {
+					defer func() {
+						// the wait function of the server panicked (over HTTP: the connection is dropped without an answer)
+						if r := recover(); r != nil {
+							w.mu.Lock()
+							w.done, w.err, w.doneAt, w.panicked = true, fmt.Errorf("wait function panicked: %v", r), time.Now(), fmt.Sprint(r)
+							w.mu.Unlock()
+						}
+					}()
 					le, err := f(wctx)
 					w.mu.Lock()
 					w.done, w.le, w.err, w.doneAt = true, le, err, time.Now()
@@ -562,6 +572,9 @@ func c17Run(t *testing.T, plan c17Plan, dir string, st map[string]int, desc *[]s
 			if !done {
 				fail("submitter %d never got an outcome", w.id)
 				continue
+			}
+			if w.panicked != "" {
+				fail("submitter %d (entry %d) got no outcome: the server panicked while answering it: %s", w.id, w.entry.ID, w.panicked)
 			}
 			if stopSeen && w.pool != nil && err == nil && w.doneAt.After(start.Add(time.Hour)) {
 				fail("submitter %d succeeded long after the stop", w.id)
